@@ -244,9 +244,34 @@ fn hayson_doc(depth: u32) -> BoxedStrategy<Vec<u8>> {
     bx((top_value(GenCfg::wf(depth)), choices()).prop_map(|(v, c)| rh::write(&v, &mut rz::Ch::new(&c)).into_bytes()))
 }
 
+/// literals made of escape sequences: \\uXXXX with surrogate / boundary code units, short escapes, broken ones
+fn escape_soup() -> BoxedStrategy<Vec<u8>> {
+    let unit = prop_oneof![
+        4 => (prop::sample::select(vec!["d800", "d83d", "dbff", "dc00", "de00", "dfff", "0000", "ffff", "fffe", "0041", "00e9", "d7ff", "e000", "D83D", "DC00", "00B0"])).prop_map(|h| format!("\\u{h}")),
+        2 => "[0-9a-fA-F]{4}".prop_map(|h| format!("\\u{h}")),
+        1 => "[0-9a-fA-Fg-z]{0,3}".prop_map(|h| format!("\\u{h}")),
+        2 => prop::sample::select(vec!["\\n", "\\t", "\\\\", "\\\"", "\\$", "\\b", "\\f", "\\`", "\\'", "\\x", "\\", "a", "é", "\u{10000}"]).prop_map(String::from),
+    ];
+    (prop::collection::vec(unit, 0..8), 0u8..6)
+        .prop_map(|(units, wrap)| {
+            let body: String = units.concat();
+            match wrap {
+                0 => format!("\"{body}\""),
+                1 => format!("`{body}`"),
+                2 => format!("@a \"{body}\""),
+                3 => format!("Foo(\"{body}\")"),
+                4 => format!("[\"{body}\", `{body}`]"),
+                _ => format!("ver:\"3.0\"\na\n\"{body}\"\n"),
+            }
+            .into_bytes()
+        })
+        .boxed()
+}
+
 fn doc_strategy(depth: u32) -> BoxedStrategy<Doc> {
     let muts = || mutate::mutations(3);
     prop_oneof![
+        2 => (escape_soup(), plan(false)).prop_map(|(bytes, plan)| Doc { bytes, plan, origin: "zinc-escape-soup".into() }),
         3 => (arbitrary_bytes(), plan(true)).prop_map(|(bytes, plan)| Doc { bytes, plan, origin: "arbitrary-bytes".into() }),
         2 => (zinc_doc(depth), plan(true)).prop_map(|(bytes, plan)| Doc { bytes, plan, origin: "zinc-valid".into() }),
         4 => (zinc_doc(depth), muts(), plan(true)).prop_map(|(mut bytes, m, plan)| { mutate::apply_all(&mut bytes, &m, ZINC_TOKENS); Doc { bytes, plan, origin: "zinc-mutant".into() } }),
@@ -359,7 +384,7 @@ fn check_corpus(c: &CorpusCase, rec: &mut Rec) -> Verdict {
 // ---------------------------------------------------------------------------------------------
 // nesting-depth ladder (child processes: a stack overflow aborts the process)
 
-pub const OPENERS: [&str; 7] = ["zinc-list", "zinc-dict", "zinc-grid", "zinc-grid-meta", "json-list", "json-dict", "json-grid-rows"];
+pub const OPENERS: [&str; 9] = ["zinc-list", "zinc-dict", "zinc-grid", "zinc-grid-meta", "zinc-bare-grid", "zinc-mixed", "json-list", "json-dict", "json-grid-rows"];
 
 pub fn ladder_doc(opener: &str, depth: usize, closed: bool) -> String {
     let mut s = String::new();
@@ -391,6 +416,22 @@ pub fn ladder_doc(opener: &str, depth: usize, closed: bool) -> String {
             if closed {
                 s.push_str("ver:\"3.0\"\na\n1\n");
                 s.push_str(&">>]\na\n1\n".repeat(depth));
+            }
+        }
+        "zinc-bare-grid" => {
+            // a cell that starts with the `ver` id is read as a grid without << >> markers
+            s.push_str(&"ver:\"3.0\"\na\n".repeat(depth));
+            if closed {
+                s.push_str("1\n");
+            }
+        }
+        "zinc-mixed" => {
+            // every opener in turn
+            for i in 0..depth {
+                s.push_str(["[", "{a:", "<<\nver:\"3.0\"\na\n", "ver:\"3.0\" m:", "ver:\"3.0\"\nb c:"][i % 5]);
+            }
+            if closed {
+                s.push('1');
             }
         }
         "json-list" => {
